@@ -1,15 +1,15 @@
 /-
 C16 — executable model of the KML mutation guards of `rs/anda_kip/src/parser/kml.rs`
 (`validate_plan`, `validate_clause`, `guard_update`, `guard_immutable_field`,
-`guard_structural_mutation`, `bound_kind_of`, `validate_exact_patterns` and its helpers,
+`guard_structural_mutation`, `bound_kinds_of`, `validate_exact_patterns` and its helpers,
 `upsert_has_stable_identity_selector`, `collect_clause_handles`, ASSERT desugaring) and of the
 collectors in `parser/common.rs` (`collect_where_variables`, `collect_mutation_value_handles`,
 `collect_mutation_value_paths`, …), over the mutation-relevant projection of `ast.rs`.
 
 The constant tables come from `Gen/KipGuardTables.lean`, regenerated from the source on every check.
 Everything here mirrors the code as written, including the order of the checks (which decides the
-error that is reported) and its quirks (e.g. `bound_kind_of` answers with the *first* kind-binding
-pattern in depth-first order, also below `NOT`).
+error that is reported) and its quirks (e.g. `bound_kinds_of` also collects kind patterns below
+`NOT` / `OPTIONAL` / `UNION`; UPSERT removal values are not re-checked for arity).
 -/
 import AndaVerif.Gen.KipGuardTables
 
@@ -117,7 +117,7 @@ inductive ElementRef where
   deriving DecidableEq, Repr
 
 inductive PredAtom where
-  | variable (n : String)
+  | vari (n : String)
   | literal (s : String)
   | param (n : String)
   deriving DecidableEq, Repr
@@ -133,7 +133,7 @@ inductive PredTerm where
 mutual
 /-- `MatchValue` -/
 inductive MatchValue where
-  | variable (n : String)
+  | vari (n : String)
   | param (n : String)
   | literal (l : Lit)
   | array (items : MatchList)
@@ -152,7 +152,7 @@ inductive PropMatcher where
   | tuple (s : Term) (p : PredTerm) (o : Term)
 /-- `Term` -/
 inductive Term where
-  | variable (n : String)
+  | vari (n : String)
   | param (n : String)
   | literal (l : Lit)
   | mtch (m : Matcher)
@@ -421,7 +421,7 @@ def MutationValue.paths : MutationValue → List String
 
 /-- `collect_pred_atom_variable` -/
 def PredAtom.vars : PredAtom → List String
-  | .variable n => [n]
+  | .vari n => [n]
   | .literal _ => []
   | .param _ => []
 
@@ -433,7 +433,7 @@ def PredTerm.vars : PredTerm → List String
 mutual
 /-- `collect_match_value_variables` -/
 def MatchValue.vars : MatchValue → List String
-  | .variable n => [n]
+  | .vari n => [n]
   | .param _ => []
   | .literal _ => []
   | .array items => items.vars
@@ -452,7 +452,7 @@ def PropMatcher.vars : PropMatcher → List String
   | .tuple s p o => s.vars ++ o.vars ++ p.vars
 /-- `collect_term_variables` -/
 def Term.vars : Term → List String
-  | .variable n => [n]
+  | .vari n => [n]
   | .param _ => []
   | .literal _ => []
   | .mtch m => m.vars
@@ -493,7 +493,7 @@ end
 mutual
 /-- `validate_exact_match_value` -/
 def MatchValue.validateExact : MatchValue → Res
-  | .variable _ => .ok ()
+  | .vari _ => .ok ()
   | .param _ => .ok ()
   | .literal _ => .ok ()
   | .array items => items.validateExact
@@ -527,7 +527,7 @@ def PropMatcher.validateExact : PropMatcher → Res
         | .ok _ => o.validateExact
 /-- `validate_exact_term` -/
 def Term.validateExact : Term → Res
-  | .variable _ => .ok ()
+  | .vari _ => .ok ()
   | .param _ => .ok ()
   | .literal _ => .ok ()
   | .mtch m => m.validateExact
@@ -655,29 +655,31 @@ inductive BoundKind where
   | assertion | evidence | proposition | concept | activity
   deriving DecidableEq, Repr
 
+/-- `if let Some(kind) = found && !kinds.contains(&kind) { kinds.push(kind) }` -/
+def pushKind (k : BoundKind) (kinds : List BoundKind) : List BoundKind :=
+  if kinds.contains k then kinds else kinds ++ [k]
+
 mutual
-/-- one iteration of the loop of `bound_kind_of` -/
-def WhereClause.boundKind (x : String) : WhereClause → Option BoundKind
-  | .assertion v _ => if v = x then some .assertion else none
-  | .evidence v _ => if v = x then some .evidence else none
-  | .activity v _ => if v = x then some .activity else none
-  | .concept v _ => if v = x then some .concept else none
-  | .proposition (some v) _ => if v = x then some .proposition else none
-  | .proposition none _ => none
-  | .not ws => ws.boundKind x
-  | .optional ws => ws.boundKind x
-  | .union ws => ws.boundKind x
-  | .structural _ _ _ => none
-  | .belief _ _ => none
-  | .beliefSlot _ _ _ => none
-  | .filter => none
-/-- `bound_kind_of` -/
-def WhereList.boundKind (x : String) : WhereList → Option BoundKind
-  | .nil => none
-  | .cons w t =>
-    match w.boundKind x with
-    | some k => some k
-    | none => t.boundKind x
+/-- one iteration of the loop of `bound_kinds_of` (`kinds` is the `&mut Vec` accumulator) -/
+def WhereClause.boundKinds (x : String) : WhereClause → List BoundKind → List BoundKind
+  | .assertion v _, kinds => if v = x then pushKind .assertion kinds else kinds
+  | .evidence v _, kinds => if v = x then pushKind .evidence kinds else kinds
+  | .activity v _, kinds => if v = x then pushKind .activity kinds else kinds
+  | .concept v _, kinds => if v = x then pushKind .concept kinds else kinds
+  | .proposition (some v) _, kinds => if v = x then pushKind .proposition kinds else kinds
+  | .proposition none _, kinds => kinds
+  | .not ws, kinds => ws.boundKinds x kinds
+  | .optional ws, kinds => ws.boundKinds x kinds
+  | .union ws, kinds => ws.boundKinds x kinds
+  | .structural _ _ _, kinds => kinds
+  | .belief _ _, kinds => kinds
+  | .beliefSlot _ _ _, kinds => kinds
+  | .filter, kinds => kinds
+/-- `bound_kinds_of`: every kind the WHERE binds the variable to, at any depth, de-duplicated, in
+depth-first order of first occurrence -/
+def WhereList.boundKinds (x : String) : WhereList → List BoundKind → List BoundKind
+  | .nil, kinds => kinds
+  | .cons w t, kinds => t.boundKinds x (w.boundKinds x kinds)
 end
 
 /-- the table `guard_immutable_field` consults for a kind -/
@@ -711,7 +713,7 @@ def guardImmutableFields (kind : Option BoundKind) : List String → Res
     | .error e => .error e
     | .ok _ => guardImmutableFields kind ks
 
-/-- first loop of `guard_update` -/
+/-- the inner loop (over the actions) of the first loop of `guard_update`, for one kind -/
 def guardActions (kind : Option BoundKind) : List UpdateAction → Res
   | [] => .ok ()
   | a :: rest =>
@@ -755,15 +757,23 @@ def targetVar : ElementRef → Option String
   | .handle n => some n
   | _ => none
 
-/-- the `kind` computed at the top of `guard_update` -/
-def updateKind (st : UpdateStatement) : Option BoundKind :=
+/-- the `kinds` vector computed at the top of `guard_update` -/
+def updateKinds (st : UpdateStatement) : List BoundKind :=
   match targetVar st.target, st.whereClauses with
-  | some v, some ws => ws.boundKind v
-  | _, _ => none
+  | some v, some ws => ws.boundKinds v []
+  | _, _ => []
+
+/-- the outer loop of `guard_update`: the guards must hold for every kind the target is bound to -/
+def guardKinds (actions : List UpdateAction) : List BoundKind → Res
+  | [] => .ok ()
+  | k :: ks =>
+    match guardActions (some k) actions with
+    | .error e => .error e
+    | .ok _ => guardKinds actions ks
 
 /-- `guard_update` -/
 def guardUpdate (st : UpdateStatement) : Res :=
-  match guardActions (updateKind st) st.actions with
+  match guardKinds st.actions (updateKinds st) with
   | .error e => .error e
   | .ok _ =>
     match targetVar st.target with
@@ -853,7 +863,7 @@ def validateClauseBody : MutationClause → Res
   | .createActivity c => validateRecordCreate c
   | .ensureProposition c =>
     match c.predicate with
-    | .variable _ => .error .predVariable
+    | .vari _ => .error .predVariable
     | _ =>
       andThen (validatePropositionSubject c.subject) fun _ =>
       c.object.validateExact
@@ -870,9 +880,14 @@ def validateClauseBody : MutationClause → Res
   | .tombstone _ => .ok ()
   | .mergeConcept _ => .ok ()
 
+/-- `if let Some(where_clauses) = clause_where(clause) { validate_exact_patterns(where_clauses)?; }` -/
+def validateOptWhere : Option WhereList → Res
+  | none => .ok ()
+  | some ws => ws.validateExact
+
 /-- `validate_clause` -/
 def validateClause (c : MutationClause) : Res :=
-  andThen (match clauseWhere c with | none => .ok () | some ws => ws.validateExact) fun _ =>
+  andThen (validateOptWhere (clauseWhere c)) fun _ =>
   validateClauseBody c
 
 /-! ## `validate_plan` -/
@@ -1065,8 +1080,42 @@ def evidenceEdge (v : MutationValue) : StructuralEdge :=
   { field := .name "evidence", value := v,
     options := some (.cons "role" (.value supportLit) .nil) }
 
-/-- `assert_statement` after the tuple was read: member checks, then the clause group built for the
-clause position `seq`. -/
+/-- the `set_fields` vector built inside the clause group -/
+def assertSetFields (propositionHandle : String) (by_ mode : MutationValue) (members : Assignments) : Assignments :=
+  [("proposition", .handle propositionHandle), ("asserted_by", by_), ("mode", mode),
+   ("stance", (lookupMember "stance" members).getD (.value supportLit))]
+    ++ optField "confidence" (lookupMember "confidence" members)
+    ++ optField "asserted_at" (lookupMember "at" members)
+    ++ optField "valid_time" (lookupMember "valid" members)
+
+/-- the `edges` vector and `(!edges.is_empty()).then_some(edges)` -/
+def assertEdges (members : Assignments) : Option (List StructuralEdge) :=
+  let edges : List StructuralEdge :=
+    match lookupMember "evidence" members with
+    | none => []
+    | some v => (evidenceRefs v).map evidenceEdge
+  if edges.isEmpty then none else some edges
+
+/-- the clause group built for the clause position `seq` -/
+def assertClauses (src : AssertSrc) (seq : Nat) (by_ mode : MutationValue) (clientKey : Option Scalar) :
+    List MutationClause :=
+  let assertionHandle := src.handle.getD ("#assert" ++ toString seq)
+  let propositionHandle := assertionHandle ++ "#proposition"
+  let ensure : MutationClause := .ensureProposition
+    { handle := some propositionHandle, subject := src.subject, predicate := src.predicate,
+      object := src.object, expectVersion := false }
+  let create : MutationClause := .createAssertion
+    { handle := assertionHandle, clientKey := clientKey,
+      setFields := some (assertSetFields propositionHandle by_ mode src.members),
+      setFacets := [], setStructural := assertEdges src.members }
+  let supersede : List MutationClause :=
+    match src.superseding with
+    | none => []
+    | some target => [.supersedeAssertion
+        { target := target, by_ := .handle assertionHandle, expectState := false }]
+  [ensure, create] ++ supersede
+
+/-- `assert_statement` after the tuple was read: member checks, then the clause group. -/
 def desugarAssert (src : AssertSrc) (seq : Nat) : Except AssertErr (List MutationClause) :=
   if src.members.any (fun m => !KipGuardTables.assertMembers.contains m.1) then .error .unknownMember
   else
@@ -1076,32 +1125,8 @@ def desugarAssert (src : AssertSrc) (seq : Nat) : Except AssertErr (List Mutatio
       match lookupMember "mode" src.members with
       | none => .error .missingMode
       | some mode =>
-        let stance := (lookupMember "stance" src.members).getD (.value supportLit)
         match assertClientKey (lookupMember "key" src.members) with
         | .error e => .error e
-        | .ok clientKey =>
-          let assertionHandle := src.handle.getD ("#assert" ++ toString seq)
-          let propositionHandle := assertionHandle ++ "#proposition"
-          let setFields : Assignments :=
-            [("proposition", .handle propositionHandle), ("asserted_by", by_), ("mode", mode), ("stance", stance)]
-              ++ optField "confidence" (lookupMember "confidence" src.members)
-              ++ optField "asserted_at" (lookupMember "at" src.members)
-              ++ optField "valid_time" (lookupMember "valid" src.members)
-          let edges : List StructuralEdge :=
-            match lookupMember "evidence" src.members with
-            | none => []
-            | some v => (evidenceRefs v).map evidenceEdge
-          let ensure : MutationClause := .ensureProposition
-            { handle := some propositionHandle, subject := src.subject, predicate := src.predicate,
-              object := src.object, expectVersion := false }
-          let create : MutationClause := .createAssertion
-            { handle := assertionHandle, clientKey := clientKey, setFields := some setFields,
-              setFacets := [], setStructural := if edges.isEmpty then none else some edges }
-          let supersede : List MutationClause :=
-            match src.superseding with
-            | none => []
-            | some target => [.supersedeAssertion
-                { target := target, by_ := .handle assertionHandle, expectState := false }]
-          .ok ([ensure, create] ++ supersede)
+        | .ok clientKey => .ok (assertClauses src seq by_ mode clientKey)
 
 end AndaVerif.KmlGuard
